@@ -35,13 +35,13 @@ Definition covers (bl bs : bindkey) : bool :=
   (is_unspec (bk_addr bl) || ip_eqb (bk_addr bs) (bk_addr bl)).
 
 Definition has_listener (k : kernel) (bs : bindkey) : Prop :=
-  exists lfd ls bl, In (lfd, ls) (socks k) /\ is_listener ls = true /\ s_bound ls = Some bl /\ covers bl bs = true.
+  exists lfd key, covers key bs = true /\ In lfd (bind_get (binds k) key) /\ is_listening k lfd = true.
 
 Record OwnInv (k : kernel) (ow : list N) : Prop := {
   o_idx : IdxInv k;
-  o_bind : forall fd s key, In (fd, s) (socks k) -> s_bound s = Some key -> In fd (bind_get (binds k) key);
   o_lis : forall fd s, In (fd, s) (socks k) -> is_listener s = true ->
-          In fd ow /\ s_tcb s = None /\ s_stream s = true /\ fd_closed s = false /\ s_bound s <> None;
+          In fd ow /\ s_tcb s = None /\ s_stream s = true /\ fd_closed s = false /\
+          (forall key fds, In (key, fds) (binds k) -> In fd fds -> s_bound s = Some key);
   o_rdy : forall c s, In c (ready_of k) -> In (c, s) (socks k) -> is_listener s = false;
   o_syn : forall fd s, In (fd, s) (socks k) -> is_synrcvd s = true ->
           is_listener s = false /\ fd_closed s = false /\ exists bs, s_bound s = Some bs /\ has_listener k bs;
@@ -101,28 +101,43 @@ Proof.
   apply G, V.
 Qed.
 
-Lemma view_has_listener k k' bs : same_view k k' -> has_listener k bs -> has_listener k' bs.
+Lemma is_listening_in k fd : NoDup (keys k) ->
+  (is_listening k fd = true <-> exists s, In (fd, s) (socks k) /\ is_listener s = true).
 Proof.
-  intros V (lfd & ls & bl & A & B & C & D). destruct (view_in' _ _ _ _ V A) as (ls' & A' & E).
-  destruct (summ_fields _ _ E) as (_ & E2 & _ & _ & _ & _ & E7 & _ & _).
-  exists lfd, ls', bl. repeat split; try assumption; congruence.
+  intros ND. unfold is_listening, is_listener. split.
+  - destruct (lookup k fd) as [s|] eqn:L; [|discriminate]. intros H. exists s. split; [apply (lookup_some_in _ _ _ L)|exact H].
+  - intros (s & Hs & H). destruct (lookup k fd) as [s0|] eqn:L.
+    + destruct (lookup_some_in _ _ _ L) as [Hs0 _]. rewrite (in_socks_unique _ _ _ _ ND Hs0 Hs). exact H.
+    + exfalso. apply (lookup_in_keys k fd); [|exact L]. unfold keys. apply in_map_iff. exists (fd, s). auto.
+Qed.
+
+Lemma view_keys k k' : same_view k k' -> keys k' = keys k.
+Proof.
+  intros [V _]. unfold keys. apply (f_equal (map fst)) in V. rewrite !map_map in V. cbn in V. exact V.
+Qed.
+
+Lemma view_has_listener k k' bs : same_view k k' -> NoDup (keys k) -> has_listener k bs -> has_listener k' bs.
+Proof.
+  intros V ND (lfd & key & A & B & C). pose proof V as (_ & VB & _). exists lfd, key. split; [exact A|]. split; [rewrite VB; exact B|].
+  apply (is_listening_in k lfd ND) in C as (s & Hs & L). destruct (view_in' _ _ _ _ V Hs) as (s' & Hs' & E).
+  destruct (summ_fields _ _ E) as (_ & _ & _ & _ & _ & _ & E7 & _).
+  apply is_listening_in; [rewrite (view_keys _ _ V); exact ND|]. exists s'. split; [exact Hs'|congruence].
 Qed.
 
 Lemma OwnInv_view k k' ow : same_view k k' -> IdxInv k' -> OwnInv k ow -> OwnInv k' ow.
 Proof.
-  intros V IX [H1 H2 H3 H4 H5 H6 H7]. pose proof V as (_ & VB & VC). pose proof (view_ready _ _ V) as VR. split.
+  intros V IX [H1 H3 H4 H5 H6 H7]. pose proof V as (_ & VB & VC). pose proof (view_ready _ _ V) as VR. split.
   - exact IX.
-  - intros fd s' key Hin B. destruct (view_in _ _ _ _ V Hin) as (s & Hs & E). destruct (summ_fields _ _ E) as (_ & E2 & _).
-    rewrite VB. apply (H2 fd s key Hs). congruence.
   - intros fd s' Hin L. destruct (view_in _ _ _ _ V Hin) as (s & Hs & E).
     destruct (summ_fields _ _ E) as (E1 & E2 & E3 & E4 & E5 & E6 & E7 & _).
     destruct (H3 fd s Hs) as (A & B & C & D & F); [congruence|]. repeat split; try congruence; try tauto.
+    intros key fds Hk Hf. rewrite VB in Hk. rewrite <- E2. apply (F _ _ Hk Hf).
   - intros c s' Hc Hin. destruct (view_in _ _ _ _ V Hin) as (s & Hs & E). destruct (summ_fields _ _ E) as (_ & _ & _ & _ & _ & _ & E7 & _).
     rewrite VR in Hc. rewrite <- E7. apply (H4 c s Hc Hs).
   - intros fd s' Hin S. destruct (view_in _ _ _ _ V Hin) as (s & Hs & E).
     destruct (summ_fields _ _ E) as (E1 & E2 & E3 & E4 & E5 & E6 & E7 & _).
     destruct (H5 fd s Hs) as (A & B & bs & C & D); [congruence|]. split; [congruence|]. split; [congruence|].
-    exists bs. split; [congruence|]. eapply view_has_listener; eassumption.
+    exists bs. split; [congruence|]. eapply view_has_listener; [exact V|apply H1|exact D].
   - intros l r fd s' Hc Hin S. destruct (view_in _ _ _ _ V Hin) as (s & Hs & E).
     destruct (summ_fields _ _ E) as (_ & _ & _ & _ & E5 & _ & _ & _ & E9). rewrite VC in Hc. rewrite <- E9. apply (H6 l r fd s Hc Hs). congruence.
   - intros fd s' Hin. destruct (view_in _ _ _ _ V Hin) as (s & Hs & E).
@@ -171,6 +186,22 @@ Proof.
   unfold summ. cbn. unfold is_synrcvd. cbn. rewrite T, E. reflexivity.
 Qed.
 
+Lemma OwnInv_weaken_ow k ow ow' : (forall x, In x ow -> In x ow') -> OwnInv k ow -> OwnInv k ow'.
+Proof.
+  intros W [H1 H3 H4 H5 H6 H7]. split; try assumption.
+  - intros fd s Hin L. destruct (H3 _ _ Hin L) as (A & B). split; [apply W, A|exact B].
+  - intros fd s Hin. destruct (H7 _ _ Hin) as [A|B]; [left; apply W, A|right; exact B].
+Qed.
+
+(* an fd that is queued for accept need not be counted as held *)
+Lemma OwnInv_drop_ow k ow c : In c (ready_of k) -> OwnInv k (c :: ow) -> OwnInv k ow.
+Proof.
+  intros R [H1 H3 H4 H5 H6 H7]. split; try assumption.
+  - intros fd s Hin L. destruct (H3 _ _ Hin L) as ([<-|A] & B); [|split; assumption].
+    exfalso. rewrite (H4 _ _ R Hin) in L. discriminate.
+  - intros fd s Hin. destruct (H7 _ _ Hin) as [[<-|A]|B]; auto.
+Qed.
+
 (* ---- binding index lemmas ---- *)
 Lemma bind_get_push_same l key fd : In fd (bind_get (bind_push l key fd) key).
 Proof.
@@ -195,19 +226,58 @@ Proof.
   - intros H. destruct (is_nil (filter (fun f => negb (f =? y)) f0)); cbn; [apply IH, H|]. rewrite E. apply IH, H.
 Qed.
 
+Lemma bind_get_entry l key x : In x (bind_get l key) -> exists fds, In (key, fds) l /\ In x fds.
+Proof.
+  induction l as [|[k0 f0] l IH]; cbn; [intros []|]. destruct (bk_eqb k0 key) eqn:Q.
+  - apply bk_eqb_eq in Q. subst. intros H. exists f0. auto.
+  - intros H. destruct (IH H) as (fds & A & B). exists fds. auto.
+Qed.
+
+Lemma in_binds_remove k y key fds : In (key, fds) (binds (remove_sock k y)) ->
+  exists fds0, In (key, fds0) (binds k) /\ forall x, In x fds -> In x fds0 /\ x <> y.
+Proof.
+  cbn [binds remove_sock]. intros H. apply filter_In in H as [H _]. apply in_map_iff in H as ([k0 f0] & E & Hin). cbn in E.
+  inversion E; subst. exists f0. split; [exact Hin|]. intros x Hx. apply filter_In in Hx as [A B]. split; [exact A|].
+  apply Bool.negb_true_iff, N.eqb_neq in B. exact B.
+Qed.
+
+(* has_listener is monotone in the listeners *)
 Lemma has_listener_mono k k' bs :
-  (forall lfd ls, In (lfd, ls) (socks k) -> is_listener ls = true -> exists ls', In (lfd, ls') (socks k') /\ is_listener ls' = true /\ s_bound ls' = s_bound ls) ->
+  (forall lfd key, In lfd (bind_get (binds k) key) -> is_listening k lfd = true ->
+                   In lfd (bind_get (binds k') key) /\ is_listening k' lfd = true) ->
   has_listener k bs -> has_listener k' bs.
 Proof.
-  intros M (lfd & ls & bl & A & B & C & D). destruct (M _ _ A B) as (ls' & A' & B' & C'). exists lfd, ls', bl.
-  repeat split; try assumption. congruence.
+  intros M (lfd & key & A & B & C). destruct (M _ _ B C) as [B' C']. exists lfd, key. auto.
+Qed.
+
+Lemma is_listening_upd k fd g lfd : (forall s, s_listen (g s) = s_listen s) -> is_listening (upd_sock k fd g) lfd = is_listening k lfd.
+Proof.
+  intros G. unfold is_listening, lookup; cbn. induction (socks k) as [|[f s] l IH]; cbn; [reflexivity|].
+  destruct (f =? fd) eqn:Q; cbn; destruct (f =? lfd); auto. rewrite G. reflexivity.
+Qed.
+
+Lemma is_listening_insert k s lfd : In lfd (keys k) \/ lfd <> next_id k ->
+  is_listening (fst (insert_sock k s)) lfd = is_listening k lfd.
+Proof.
+  intros H. unfold is_listening, lookup; cbn. unfold keys in H. induction (socks k) as [|[f x] l IH]; cbn.
+  - destruct (next_id k =? lfd) eqn:Q; [|reflexivity]. apply N.eqb_eq in Q. destruct H as [[]|H]; congruence.
+  - destruct (f =? lfd) eqn:Q; [reflexivity|]. apply IH. destruct H as [[H|H]|H]; auto.
+    cbn in H. apply N.eqb_neq in Q. congruence.
+Qed.
+
+Lemma is_listening_remove k y lfd : lfd <> y -> is_listening (remove_sock k y) lfd = is_listening k lfd.
+Proof.
+  intros NE. unfold is_listening, lookup; cbn. induction (socks k) as [|[f x] l IH]; cbn; [reflexivity|].
+  destruct (f =? y) eqn:Q; cbn.
+  - apply N.eqb_eq in Q. subst. rewrite (proj2 (N.eqb_neq _ _) (not_eq_sym NE)). exact IH.
+  - destruct (f =? lfd); [reflexivity|exact IH].
 Qed.
 
 (* ---- a fresh socket that the application holds ---- *)
 Lemma OwnInv_insert_owned k ow v st :
   OwnInv k ow -> OwnInv (fst (insert_sock k (new_socket v st))) (ow ++ [next_id k]).
 Proof.
-  intros [H1 H2 H3 H4 H5 H6 H7].
+  intros [H1 H3 H4 H5 H6 H7].
   assert (forall fd s, In (fd, s) (socks (fst (insert_sock k (new_socket v st)))) ->
                        In (fd, s) (socks k) \/ (fd = next_id k /\ s = new_socket v st)) as INV.
   { intros fd s Hin. cbn in Hin. apply in_app_or in Hin as [Hin|[E|[]]]; [auto|]. inversion E; auto. }
@@ -215,58 +285,70 @@ Proof.
     by (rewrite ready_of_app; cbn; apply app_nil_r).
   split.
   - apply (IdxInv_insert_sock k _ H1).
-  - intros fd s key Hin B. destruct (INV _ _ Hin) as [Hs|[-> ->]]; [apply (H2 _ _ _ Hs B)|discriminate].
   - intros fd s Hin L. destruct (INV _ _ Hin) as [Hs|[-> ->]]; [|discriminate].
     destruct (H3 _ _ Hs L) as (A & B). split; [apply in_or_app; left; exact A|exact B].
   - intros c s Hc Hin. rewrite RD in Hc. destruct (INV _ _ Hin) as [Hs|[-> ->]]; [apply (H4 _ _ Hc Hs)|reflexivity].
   - intros fd s Hin S. destruct (INV _ _ Hin) as [Hs|[-> ->]]; [|discriminate].
     destruct (H5 _ _ Hs S) as (A & B & bs & C & D). split; [exact A|]. split; [exact B|]. exists bs. split; [exact C|].
-    eapply has_listener_mono; [|exact D]. intros lfd ls Hl L. exists ls. split; [cbn; apply in_or_app; left; exact Hl|auto].
+    eapply has_listener_mono; [|exact D]. intros lfd key Hb Hl. split; [exact Hb|].
+    rewrite is_listening_insert; [exact Hl|]. left.
+    destruct (bind_get_entry _ _ _ Hb) as (fds & E1 & E2). apply (ix_binds _ H1 _ _ E1), E2.
   - intros l r fd s Hc Hin S. destruct (INV _ _ Hin) as [Hs|[-> ->]]; [apply (H6 _ _ _ _ Hc Hs S)|discriminate].
   - intros fd s Hin. rewrite RD. destruct (INV _ _ Hin) as [Hs|[-> ->]].
     + destruct (H7 _ _ Hs) as [A|B]; [left; apply in_or_app; left; exact A|right; exact B].
     + left. apply in_or_app. right. left. reflexivity.
 Qed.
 
-(* ---- binding a socket that is neither listener nor handshaking ---- *)
-Lemma OwnInv_bind k ow fd key :
-  In fd (keys k) -> (forall s, In (fd, s) (socks k) -> is_listener s = false /\ is_synrcvd s = false) ->
-  OwnInv k ow -> OwnInv (upd_sock (insert_binding k key fd) fd (fun s => set_bound s (Some key))) ow.
+(* precise membership after an update *)
+Lemma in_upd_s' l fd g f s :
+  In (f, s) (upd_s l fd g) -> exists s0, In (f, s0) l /\ ((f <> fd /\ s = s0) \/ (f = fd /\ s = g s0)).
 Proof.
-  intros Hfd NL [H1 H2 H3 H4 H5 H6 H7].
-  set (k' := upd_sock (insert_binding k key fd) fd (fun s => set_bound s (Some key))).
+  unfold upd_s. intros H. apply in_map_iff in H as ([f0 s0] & E & Hin). cbn in E.
+  destruct (f0 =? fd) eqn:Q; pose proof (f_equal fst E) as E1; pose proof (f_equal snd E) as E2; cbn in E1, E2; subst f0 s;
+    exists s0; (split; [exact Hin|]).
+  - right. apply N.eqb_eq in Q. auto.
+  - left. apply N.eqb_neq in Q. auto.
+Qed.
+
+(* ---- binding a socket that is neither listener nor handshaking ---- *)
+Lemma OwnInv_bind k ow fd key g :
+  In fd (keys k) -> (forall s, In (fd, s) (socks k) -> is_listener s = false /\ is_synrcvd s = false) ->
+  (forall s, s_listen (g s) = s_listen s /\ fd_closed (g s) = fd_closed s /\ s_stream (g s) = s_stream s /\ s_tcb (g s) = s_tcb s) ->
+  OwnInv k ow -> OwnInv (upd_sock (insert_binding k key fd) fd g) ow.
+Proof.
+  intros Hfd NL G [H1 H3 H4 H5 H6 H7].
+  set (k' := upd_sock (insert_binding k key fd) fd g).
   assert (forall f s', In (f, s') (socks k') -> exists s, In (f, s) (socks k) /\
             s_listen s' = s_listen s /\ fd_closed s' = fd_closed s /\ s_stream s' = s_stream s /\ s_tcb s' = s_tcb s /\
-            (s' = s \/ (f = fd /\ s_bound s' = Some key))) as INV.
-  { intros f s' Hin. cbn in Hin. unfold upd_s in Hin. apply in_map_iff in Hin as ([f0 s0] & E & Hin0). cbn in E.
-    destruct (f0 =? fd) eqn:Q.
-    - apply N.eqb_eq in Q. pose proof (f_equal fst E) as E1. pose proof (f_equal snd E) as E2. cbn in E1, E2. subst f0 f s'.
-      exists s0. split; [exact Hin0|]. repeat split; auto.
-    - pose proof (f_equal fst E) as E1. pose proof (f_equal snd E) as E2. cbn in E1, E2. subst f s'.
-      exists s0. split; [exact Hin0|]. repeat split; auto. }
-  assert (ready_of k' = ready_of k) as RD by (unfold k'; rewrite ready_of_upd_same by reflexivity; reflexivity).
+            (s' = s \/ f = fd)) as INV.
+  { intros f s' Hin. cbn in Hin. apply in_upd_s' in Hin as (s0 & Hin0 & [[NE ->]|[-> ->]]); exists s0; (split; [exact Hin0|]).
+    - repeat split; auto. - destruct (G s0) as (A & B & C & D). repeat split; auto. }
+  assert (ready_of k' = ready_of k) as RD.
+  { unfold k'. rewrite ready_of_upd_same; [reflexivity|]. intros s. unfold rdy. destruct (G s) as (A & _). rewrite A. reflexivity. }
   assert (forall bs, has_listener k bs -> has_listener k' bs) as HL.
-  { intros bs (lfd & ls & bl & A & B & C & D).
-    assert (lfd <> fd) as NE. { intros ->. destruct (NL _ A) as [X _]. congruence. }
-    exists lfd, ls, bl. repeat split; try assumption. cbn. unfold upd_s. apply in_map_iff. exists (lfd, ls). cbn.
-    rewrite (proj2 (N.eqb_neq _ _) NE). auto. }
+  { intros bs. apply has_listener_mono. intros lfd key0 Hb Hl. split.
+    - cbn [binds k' upd_sock set_socks insert_binding]. apply bind_get_push_other, Hb.
+    - unfold k'. rewrite is_listening_upd; [exact Hl|]. intros s. apply (G s). }
   split.
-  - apply IdxInv_upd_sock; [intros s Hs; exact Hs|]. apply IdxInv_insert_binding; assumption.
-  - intros f s' key' Hin B. destruct (INV _ _ Hin) as (s & Hs & _ & _ & _ & _ & [->|[-> B']]); cbn [binds k' upd_sock set_socks insert_binding].
-    + apply bind_get_push_other. apply (H2 _ _ _ Hs B).
-    + rewrite B' in B. inversion B; subst. apply bind_get_push_same.
+  - apply IdxInv_upd_sock; [intros s Hs; destruct (G s) as (_ & _ & _ & D); rewrite D; exact Hs|]. apply IdxInv_insert_binding; assumption.
   - intros f s' Hin L. destruct (INV _ _ Hin) as (s & Hs & E1 & E2 & E3 & E4 & D).
     assert (is_listener s = true) as L' by (unfold is_listener in *; rewrite <- E1; exact L).
-    destruct (H3 _ _ Hs L') as (A & B & C & F & G). destruct D as [->|[-> _]]; [repeat split; assumption|].
-    destruct (NL _ Hs) as [X _]. congruence.
+    destruct D as [->| ->]; [|destruct (NL _ Hs) as [X _]; congruence].
+    destruct (H3 _ _ Hs L') as (A & B & C & F & LB). repeat split; try assumption.
+    intros key' fds' Hk Hf. cbn [binds k' upd_sock set_socks insert_binding] in Hk.
+    assert (f <> fd) as NE by (intros ->; destruct (NL _ Hs) as [X _]; congruence).
+    apply in_bind_push in Hk as [Hk|[(fds0 & Hk & ->)| ->]].
+    + apply (LB _ _ Hk Hf).
+    + apply in_app_or in Hf as [Hf|[Hf|[]]]; [apply (LB _ _ Hk Hf)|congruence].
+    + destruct Hf as [Hf|[]]. congruence.
   - intros c s' Hc Hin. rewrite RD in Hc. destruct (INV _ _ Hin) as (s & Hs & E1 & _). unfold is_listener. rewrite E1. apply (H4 _ _ Hc Hs).
   - intros f s' Hin S. destruct (INV _ _ Hin) as (s & Hs & E1 & E2 & E3 & E4 & D).
     assert (is_synrcvd s = true) as S' by (unfold is_synrcvd in *; rewrite <- E4; exact S).
-    destruct D as [->|[-> _]]; [|destruct (NL _ Hs) as [_ X]; congruence].
+    destruct D as [->| ->]; [|destruct (NL _ Hs) as [_ X]; congruence].
     destruct (H5 _ _ Hs S') as (A & B & bs & C & D). split; [exact A|]. split; [exact B|]. exists bs. split; [exact C|apply HL, D].
   - intros l r f s' Hc Hin S. destruct (INV _ _ Hin) as (s & Hs & E1 & E2 & E3 & E4 & D).
     assert (is_synrcvd s = true) as S' by (unfold is_synrcvd in *; rewrite <- E4; exact S).
-    destruct D as [->|[-> _]]; [apply (H6 _ _ _ _ Hc Hs S')|destruct (NL _ Hs) as [_ X]; congruence].
+    destruct D as [->| ->]; [apply (H6 _ _ _ _ Hc Hs S')|destruct (NL _ Hs) as [_ X]; congruence].
   - intros f s' Hin. rewrite RD. destruct (INV _ _ Hin) as (s & Hs & E1 & E2 & E3 & E4 & D).
     destruct (H7 _ _ Hs) as [A|[A|[A|A]]]; auto.
     + right. right. left. congruence.
@@ -285,28 +367,33 @@ Proof.
   - f_equal. apply IH. intros s0 H. apply NL. right. exact H.
 Qed.
 
+Lemma in_socks_remove k x f s : In (f, s) (socks (remove_sock k x)) <-> In (f, s) (socks k) /\ f <> x.
+Proof.
+  cbn. rewrite filter_In. cbn. split; intros [A B]; (split; [exact A|]).
+  - apply Bool.negb_true_iff, N.eqb_neq in B. exact B. - apply Bool.negb_true_iff, N.eqb_neq. exact B.
+Qed.
+
 Lemma OwnInv_remove_nonlistener k ow x :
   (forall s, In (x, s) (socks k) -> is_listener s = false) -> OwnInv k ow -> OwnInv (remove_sock k x) ow.
 Proof.
-  intros NL [H1 H2 H3 H4 H5 H6 H7].
-  assert (forall f s, In (f, s) (socks (remove_sock k x)) -> In (f, s) (socks k) /\ f <> x) as INV.
-  { intros f s Hin. cbn in Hin. apply filter_In in Hin as [Hin Q]. cbn in Q. split; [exact Hin|].
-    apply Bool.negb_true_iff, N.eqb_neq in Q. exact Q. }
+  intros NL [H1 H3 H4 H5 H6 H7].
   pose proof (ready_of_remove_nonlistener k x NL) as RD.
   split.
   - apply IdxInv_remove_sock, H1.
-  - intros f s key Hin B. destruct (INV _ _ Hin) as [Hs NE]. apply bind_get_remove; [exact NE|apply (H2 _ _ _ Hs B)].
-  - intros f s Hin L. destruct (INV _ _ Hin) as [Hs _]. apply (H3 _ _ Hs L).
-  - intros c s Hc Hin. rewrite RD in Hc. destruct (INV _ _ Hin) as [Hs _]. apply (H4 _ _ Hc Hs).
-  - intros f s Hin S. destruct (INV _ _ Hin) as [Hs _]. destruct (H5 _ _ Hs S) as (A & B & bs & C & D).
+  - intros f s Hin L. apply in_socks_remove in Hin as [Hs NE]. destruct (H3 _ _ Hs L) as (A & B & C & D & LB).
+    repeat split; try assumption. intros key fds Hk Hf. destruct (in_binds_remove _ _ _ _ Hk) as (fds0 & Hk0 & Sub).
+    apply (LB _ _ Hk0). apply (Sub _ Hf).
+  - intros c s Hc Hin. rewrite RD in Hc. apply in_socks_remove in Hin as [Hs _]. apply (H4 _ _ Hc Hs).
+  - intros f s Hin S. apply in_socks_remove in Hin as [Hs _]. destruct (H5 _ _ Hs S) as (A & B & bs & C & D).
     split; [exact A|]. split; [exact B|]. exists bs. split; [exact C|].
-    eapply has_listener_mono; [|exact D]. intros lfd ls Hl L. exists ls. split; [|auto].
-    cbn. apply filter_In. split; [exact Hl|]. cbn. apply Bool.negb_true_iff, N.eqb_neq. intros ->. specialize (NL _ Hl). congruence.
-  - intros l r f s Hc Hin S. destruct (INV _ _ Hin) as [Hs _]. cbn in Hc. apply filter_In in Hc as [Hc _]. apply (H6 _ _ _ _ Hc Hs S).
-  - intros f s Hin. rewrite RD. destruct (INV _ _ Hin) as [Hs _]. apply (H7 _ _ Hs).
+    eapply has_listener_mono; [|exact D]. intros lfd key Hb Hl.
+    assert (lfd <> x) as NE.
+    { intros ->. apply (is_listening_in k x (ix_nodup _ H1)) in Hl as (s0 & Hs0 & L0). rewrite (NL _ Hs0) in L0. discriminate. }
+    split; [apply bind_get_remove; assumption|rewrite is_listening_remove; assumption].
+  - intros l r f s Hc Hin S. apply in_socks_remove in Hin as [Hs _]. cbn in Hc. apply filter_In in Hc as [Hc _]. apply (H6 _ _ _ _ Hc Hs S).
+  - intros f s Hin. rewrite RD. apply in_socks_remove in Hin as [Hs _]. apply (H7 _ _ Hs).
 Qed.
 
-(* dropping an fd from the handle table once its socket is gone *)
 Lemma in_disown l fd x : In x (disown l fd) <-> In x l /\ x <> fd.
 Proof.
   unfold disown. rewrite filter_In. split; intros [A B]; (split; [exact A|]).
@@ -315,10 +402,637 @@ Qed.
 
 Lemma OwnInv_disown_gone k ow fd : ~ In fd (keys k) -> OwnInv k ow -> OwnInv k (disown ow fd).
 Proof.
-  intros G [H1 H2 H3 H4 H5 H6 H7].
+  intros G [H1 H3 H4 H5 H6 H7].
   assert (forall f s, In (f, s) (socks k) -> f <> fd) as NE.
   { intros f s Hin ->. apply G. unfold keys. apply in_map_iff. exists (fd, s). auto. }
   split; try assumption.
   - intros f s Hin L. destruct (H3 _ _ Hin L) as (A & B). split; [apply in_disown; split; [exact A|eapply NE, Hin]|exact B].
   - intros f s Hin. destruct (H7 _ _ Hin) as [A|B]; [left; apply in_disown; split; [exact A|eapply NE, Hin]|right; exact B].
+Qed.
+
+(* ---- listen on a held, bound, TCB-less stream socket that is queued nowhere ---- *)
+Lemma frdy_listen_fresh l fd bl :
+  (forall s, In (fd, s) l -> is_listener s = false) ->
+  frdy (upd_s l fd (fun s : socket => set_listen s (Some (mklisten bl [])))) = frdy l.
+Proof.
+  induction l as [|[f s] l IH]; intros NL; [reflexivity|]. rewrite upd_s_cons.
+  assert (frdy (upd_s l fd (fun s0 : socket => set_listen s0 (Some (mklisten bl [])))) = frdy l) as E
+    by (apply IH; intros s0 Hin; apply NL; right; exact Hin).
+  destruct (f =? fd) eqn:Q; rewrite !frdy_cons, E; [|reflexivity]. apply N.eqb_eq in Q. subst.
+  specialize (NL s (or_introl eq_refl)). unfold rdy, is_listener in *. cbn. destruct (s_listen s); [discriminate|reflexivity].
+Qed.
+
+Lemma OwnInv_listen k ow fd bl :
+  In fd ow -> ~ In fd (ready_of k) ->
+  (forall s, In (fd, s) (socks k) -> s_tcb s = None /\ s_stream s = true /\ fd_closed s = false /\ is_listener s = false /\
+             (forall key fds, In (key, fds) (binds k) -> In fd fds -> s_bound s = Some key)) ->
+  OwnInv k ow -> OwnInv (k_listen k fd bl) ow.
+Proof.
+  intros Hown NR Hs0 [H1 H3 H4 H5 H6 H7]. unfold k_listen.
+  set (g := fun s : socket => set_listen s (Some (mklisten bl []))).
+  assert (ready_of (upd_sock k fd g) = ready_of k) as RD.
+  { change (ready_of (upd_sock k fd g)) with (frdy (upd_s (socks k) fd g)). change (ready_of k) with (frdy (socks k)).
+    apply frdy_listen_fresh. intros s Hin. apply (Hs0 _ Hin). }
+  split.
+  - apply IdxInv_upd_sock; [intros s Hs; exact Hs|exact H1].
+  - intros f s' Hin L. cbn in Hin. apply in_upd_s' in Hin as (s & Hs & [[NE ->]|[-> ->]]).
+    + apply (H3 _ _ Hs L).
+    + destruct (Hs0 _ Hs) as (A & B & C & D & LB). repeat split; assumption.
+  - intros c s' Hc Hin. rewrite RD in Hc. cbn in Hin. apply in_upd_s' in Hin as (s & Hs & [[NE ->]|[-> ->]]).
+    + apply (H4 _ _ Hc Hs). + contradiction.
+  - intros f s' Hin S. cbn in Hin. apply in_upd_s' in Hin as (s & Hs & [[NE ->]|[-> ->]]).
+    + destruct (H5 _ _ Hs S) as (A & B & bs & C & D). split; [exact A|]. split; [exact B|]. exists bs. split; [exact C|].
+      eapply has_listener_mono; [|exact D]. intros lfd key Hb Hl. split; [exact Hb|].
+      unfold is_listening, lookup in *; cbn. clear -Hl. induction (socks k) as [|[f0 x] l IH]; cbn in *; [discriminate|].
+      destruct (f0 =? fd) eqn:Q; cbn; destruct (f0 =? lfd); auto.
+    + exfalso. destruct (Hs0 _ Hs) as (A & _). unfold is_synrcvd in S. cbn in S. rewrite A in S. discriminate.
+  - intros l r f s' Hc Hin S. cbn in Hin. apply in_upd_s' in Hin as (s & Hs & [[NE ->]|[-> ->]]).
+    + apply (H6 _ _ _ _ Hc Hs S).
+    + exfalso. destruct (Hs0 _ Hs) as (A & _). unfold is_synrcvd in S. cbn in S. rewrite A in S. discriminate.
+  - intros f s' Hin. rewrite RD. cbn in Hin. apply in_upd_s' in Hin as (s & Hs & [[NE ->]|[-> ->]]).
+    + apply (H7 _ _ Hs). + left. exact Hown.
+Qed.
+
+(* ---- general update of one socket that leaves listeners alone ---- *)
+Lemma OwnInv_upd_gen k ow fd g :
+  (forall s, s_listen (g s) = s_listen s /\ s_bound (g s) = s_bound s /\ s_stream (g s) = s_stream s) ->
+  (forall s, In (fd, s) (socks k) -> is_listener s = true -> g s = s) ->
+  (forall s, s_tcb s <> None -> s_tcb (g s) <> None) ->
+  (forall s, fd_closed s = true -> fd_closed (g s) = true) ->
+  (forall s, is_synrcvd (g s) = true -> is_synrcvd s = true /\ fd_closed (g s) = fd_closed s) ->
+  (forall s, In (fd, s) (socks k) -> is_synrcvd s = true -> is_synrcvd (g s) = false -> fd_closed (g s) = true \/ In fd ow) ->
+  OwnInv k ow -> OwnInv (upd_sock k fd g) ow.
+Proof.
+  intros G1 G2 G3 G4 G5 G6 [H1 H3 H4 H5 H6 H7].
+  assert (ready_of (upd_sock k fd g) = ready_of k) as RD.
+  { apply ready_of_upd_same. intros s. unfold rdy. destruct (G1 s) as (A & _). rewrite A. reflexivity. }
+  assert (forall bs, has_listener k bs -> has_listener (upd_sock k fd g) bs) as HL.
+  { intros bs. apply has_listener_mono. intros lfd key Hb Hl. split; [exact Hb|].
+    rewrite is_listening_upd; [exact Hl|]. intros s. apply (G1 s). }
+  split.
+  - apply IdxInv_upd_sock; assumption.
+  - intros f s' Hin L. cbn in Hin. apply in_upd_s' in Hin as (s & Hs & [[NE ->]|[-> ->]]); [apply (H3 _ _ Hs L)|].
+    assert (is_listener s = true) as L' by (unfold is_listener in *; destruct (G1 s) as (A & _); rewrite <- A; exact L).
+    rewrite (G2 _ Hs L'). apply (H3 _ _ Hs L').
+  - intros c s' Hc Hin. rewrite RD in Hc. cbn in Hin. apply in_upd_s' in Hin as (s & Hs & [[NE ->]|[-> ->]]); [apply (H4 _ _ Hc Hs)|].
+    unfold is_listener. destruct (G1 s) as (A & _). rewrite A. apply (H4 _ _ Hc Hs).
+  - intros f s' Hin S. cbn in Hin. apply in_upd_s' in Hin as (s & Hs & [[NE ->]|[-> ->]]).
+    + destruct (H5 _ _ Hs S) as (A & B & bs & C & D). split; [exact A|]. split; [exact B|]. exists bs. split; [exact C|apply HL, D].
+    + destruct (G5 _ S) as [S0 FC]. destruct (H5 _ _ Hs S0) as (A & B & bs & C & D). destruct (G1 s) as (E1 & E2 & E3).
+      split; [unfold is_listener in *; rewrite E1; exact A|]. split; [congruence|]. exists bs. split; [congruence|apply HL, D].
+  - intros l r f s' Hc Hin S. cbn in Hin. apply in_upd_s' in Hin as (s & Hs & [[NE ->]|[-> ->]]); [apply (H6 _ _ _ _ Hc Hs S)|].
+    destruct (G5 _ S) as [S0 _]. destruct (G1 s) as (_ & E2 & _). unfold bound_endpoint. rewrite E2. apply (H6 _ _ _ _ Hc Hs S0).
+  - intros f s' Hin. rewrite RD. cbn in Hin. apply in_upd_s' in Hin as (s & Hs & [[NE ->]|[-> ->]]); [apply (H7 _ _ Hs)|].
+    destruct (H7 _ _ Hs) as [A|[A|[A|A]]]; [auto|auto|right; right; left; apply G4, A|].
+    destruct (is_synrcvd (g s)) eqn:S; [auto|]. destruct (G6 _ Hs A S) as [X|X]; auto.
+Qed.
+
+Lemma OwnInv_abort k ow fd b : OwnInv k ow -> OwnInv (abort_with k fd b) ow.
+Proof.
+  intros H. unfold abort_with. apply OwnInv_upd_gen; [| | | | | |exact H].
+  - intros s. unfold sock_abort. destruct (s_tcb s); [destruct (tstate_eqb _ _)|]; repeat split.
+  - intros s Hs L. destruct (o_lis _ _ H _ _ Hs L) as (_ & T & _). unfold sock_abort. rewrite T. reflexivity.
+  - intros s Hs. unfold sock_abort. destruct (s_tcb s) eqn:T; [|rewrite T; exact Hs]. destruct (tstate_eqb _ _); cbn; discriminate.
+  - intros s Hs. unfold sock_abort. destruct (s_tcb s); [|exact Hs]. destruct (tstate_eqb _ _); cbn; auto.
+  - intros s Hs. exfalso. unfold sock_abort, is_synrcvd in Hs. destruct (s_tcb s) as [t|] eqn:T.
+    + destruct (tstate_eqb (t_state t) SynReceived); cbn in Hs; discriminate.
+    + rewrite T in Hs. discriminate.
+  - intros s Hs S _. left. unfold sock_abort. unfold is_synrcvd in S. destruct (s_tcb s) as [t|]; [|discriminate]. rewrite S. reflexivity.
+Qed.
+
+(* ---- queueing an established child ---- *)
+Lemma find_listener_is_listening k local lfd : find_listener k local = Some lfd -> is_listening k lfd = true.
+Proof.
+  unfold find_listener, is_listening. set (is_l := fun fd => _).
+  intros H. assert (is_l lfd = true) as X.
+  { destruct (find is_l (bind_get (binds k) (mkbk true (fst local) (snd local)))) eqn:F1.
+    - inversion H; subst. apply (find_some _ _ F1). - apply (find_some _ _ H). }
+  exact X.
+Qed.
+
+Lemma OwnInv_push k ow c local :
+  (forall s, In (c, s) (socks k) -> is_listener s = false) -> OwnInv k ow ->
+  OwnInv (push_to_listener k c local) ow /\
+  (find_listener k local <> None -> In c (ready_of (push_to_listener k c local))).
+Proof.
+  intros NL H. unfold push_to_listener. destruct (find_listener k local) as [lfd|] eqn:FL; [|split; [exact H|congruence]].
+  change (fun s : socket => match s_listen s with
+                            | Some l => set_listen s (Some (mklisten (backlog l) (ready l ++ [c]))) | None => s end) with (gpush c).
+  pose proof (find_listener_is_listening _ _ _ FL) as LL.
+  apply (is_listening_in k lfd (ix_nodup _ (o_idx _ _ H))) in LL as (sl & Hsl & Ll).
+  destruct (ready_of_push (socks k) lfd c (ix_nodup _ (o_idx _ _ H))) as [(s & li & Hin0 & L & P)|[A _]].
+  2:{ exfalso. specialize (A _ Hsl). unfold is_listener in Ll. rewrite A in Ll. discriminate. }
+  assert (forall x, In x (ready_of (upd_sock k lfd (gpush c))) <-> x = c \/ In x (ready_of k)) as RD.
+  { intros x. change (ready_of (upd_sock k lfd (gpush c))) with (frdy (upd_s (socks k) lfd (gpush c))). change (ready_of k) with (frdy (socks k)).
+    split; intros Hx; [apply (Permutation_in _ P) in Hx; destruct Hx; auto|].
+    apply (Permutation_in _ (Permutation_sym P)). destruct Hx as [->|Hx]; [left; reflexivity|right; exact Hx]. }
+  split; [|intros _; apply RD; left; reflexivity].
+  destruct H as [H1 H3 H4 H5 H6 H7].
+  assert (forall s, s_bound (gpush c s) = s_bound s /\ fd_closed (gpush c s) = fd_closed s /\ s_stream (gpush c s) = s_stream s /\
+                    s_tcb (gpush c s) = s_tcb s /\ is_listener (gpush c s) = is_listener s /\ is_synrcvd (gpush c s) = is_synrcvd s) as GP.
+  { intros s0. unfold gpush, is_listener, is_synrcvd. destruct (s_listen s0) eqn:E; cbn; rewrite ?E;
+      (split; [reflexivity|]; split; [reflexivity|]; split; [reflexivity|]; split; [reflexivity|]; split; reflexivity). }
+  assert (forall bs, has_listener k bs -> has_listener (upd_sock k lfd (gpush c)) bs) as HL.
+  { intros bs. apply has_listener_mono. intros l0 key Hb Hl. split; [exact Hb|].
+    apply (is_listening_in k l0 (ix_nodup _ H1)) in Hl as (s0 & Hs0 & L0).
+    apply is_listening_in; [rewrite keys_upd_sock; apply H1|].
+    destruct (N.eq_dec l0 lfd) as [->|NE].
+    - exists (gpush c s0). split; [cbn; unfold upd_s; apply in_map_iff; exists (lfd, s0); cbn; rewrite N.eqb_refl; auto|].
+      destruct (GP s0) as (_ & _ & _ & _ & E & _). congruence.
+    - exists s0. split; [cbn; unfold upd_s; apply in_map_iff; exists (l0, s0); cbn; rewrite (proj2 (N.eqb_neq _ _) NE); auto|exact L0]. }
+  split.
+  - apply IdxInv_upd_sock; [|exact H1]. intros s0 Hs0. destruct (GP s0) as (_ & _ & _ & E & _). rewrite E. exact Hs0.
+  - intros f s' Hin Lf. cbn in Hin. apply in_upd_s' in Hin as (s0 & Hs0 & [[NE ->]|[-> ->]]); [apply (H3 _ _ Hs0 Lf)|].
+    destruct (GP s0) as (E1 & E2 & E3 & E4 & E5 & E6). rewrite E5 in Lf. destruct (H3 _ _ Hs0 Lf) as (A & B & C & D & LB).
+    repeat split; try congruence. intros key fds Hk Hf. rewrite E1. apply (LB _ _ Hk Hf).
+  - intros x s' Hx Hin. apply RD in Hx. cbn in Hin. apply in_upd_s' in Hin as (s0 & Hs0 & [[NE ->]|[-> ->]]).
+    + destruct Hx as [->|Hx]; [apply (NL _ Hs0)|apply (H4 _ _ Hx Hs0)].
+    + destruct (GP s0) as (_ & _ & _ & _ & E5 & _). rewrite E5. destruct Hx as [->|Hx]; [apply (NL _ Hs0)|apply (H4 _ _ Hx Hs0)].
+  - intros f s' Hin S. cbn in Hin. apply in_upd_s' in Hin as (s0 & Hs0 & [[NE ->]|[-> ->]]).
+    + destruct (H5 _ _ Hs0 S) as (A & B & bs & C & D). split; [exact A|]. split; [exact B|]. exists bs. split; [exact C|apply HL, D].
+    + destruct (GP s0) as (E1 & E2 & E3 & E4 & E5 & E6). rewrite E6 in S. destruct (H5 _ _ Hs0 S) as (A & B & bs & C & D).
+      split; [congruence|]. split; [congruence|]. exists bs. split; [congruence|apply HL, D].
+  - intros l r f s' Hc Hin S. cbn in Hin. apply in_upd_s' in Hin as (s0 & Hs0 & [[NE ->]|[-> ->]]); [apply (H6 _ _ _ _ Hc Hs0 S)|].
+    destruct (GP s0) as (E1 & _ & _ & _ & _ & E6). rewrite E6 in S. unfold bound_endpoint. rewrite E1. apply (H6 _ _ _ _ Hc Hs0 S).
+  - intros f s' Hin. cbn in Hin. apply in_upd_s' in Hin as (s0 & Hs0 & [[NE ->]|[-> ->]]).
+    + destruct (H7 _ _ Hs0) as [A|[A|B]]; auto. right. left. apply RD. auto.
+    + destruct (GP s0) as (_ & E2 & _ & _ & _ & E6). rewrite E2, E6. destruct (H7 _ _ Hs0) as [A|[A|B]]; auto. right. left. apply RD. auto.
+Qed.
+
+(* ---- covering listener => find_listener finds one ---- *)
+Lemma covers_find_listener k bs : has_listener k bs -> find_listener k (bk_addr bs, bk_port bs) <> None.
+Proof.
+  intros (lfd & key & C & B & L). unfold find_listener. cbn [fst snd].
+  set (is_l := fun fd => match lookup k fd with Some s => match s_listen s with Some _ => true | None => false end | None => false end).
+  assert (is_l lfd = true) as IL by exact L.
+  unfold covers in C. apply andb_prop in C as [C C5]. apply andb_prop in C as [C C4]. apply andb_prop in C as [C C3].
+  apply andb_prop in C as [C1 C2]. apply N.eqb_eq in C3. apply Bool.eqb_prop in C4.
+  assert (key = mkbk true (bk_addr bs) (bk_port bs) \/ key = mkbk true (unspec_of (bk_addr bs)) (bk_port bs)) as [E|E].
+  { destruct key as [st a p]. cbn in *. subst st p. apply Bool.orb_prop in C5 as [U|Q].
+    - right. f_equal. unfold is_unspec in U. apply N.eqb_eq in U. unfold unspec_of. destruct a as [v i]. cbn in *. subst. reflexivity.
+    - left. apply ip_eqb_eq in Q. subst. reflexivity. }
+  - subst key. destruct (find is_l (bind_get (binds k) _)) eqn:F; [discriminate|]. exfalso.
+    pose proof (find_none _ _ F _ B) as X. congruence.
+  - subst key. destruct (find is_l (bind_get (binds k) (mkbk true (bk_addr bs) (bk_port bs)))); [discriminate|].
+    destruct (find is_l (bind_get (binds k) _)) eqn:F; [discriminate|]. exfalso.
+    pose proof (find_none _ _ F _ B) as X. congruence.
+Qed.
+
+Lemma find_listener_has k local lfd :
+  find_listener k local = Some lfd -> has_listener k (mkbk true (fst local) (snd local)).
+Proof.
+  intros FL. pose proof (find_listener_is_listening _ _ _ FL) as IL.
+  unfold find_listener in FL. set (is_l := fun fd => _) in FL.
+  destruct (find is_l (bind_get (binds k) (mkbk true (fst local) (snd local)))) eqn:F1.
+  - inversion FL; subst. exists lfd, (mkbk true (fst local) (snd local)). split; [|split; [apply (find_some _ _ F1)|exact IL]].
+    unfold covers. cbn. rewrite N.eqb_refl, Bool.eqb_reflx, ip_eqb_refl, Bool.orb_true_r. reflexivity.
+  - exists lfd, (mkbk true (unspec_of (fst local)) (snd local)). split; [|split; [apply (find_some _ _ FL)|exact IL]].
+    unfold covers. cbn. rewrite N.eqb_refl, Bool.eqb_reflx. reflexivity.
+Qed.
+
+(* ---- a handshaking child created from a SYN (accept_syn without the connection index) ---- *)
+Lemma OwnInv_new_child k ow v st key r t :
+  OwnInv k ow -> has_listener k key -> t_state t = SynReceived ->
+  let c := next_id k in
+  let K := fst (insert_sock k (new_socket v st)) in
+  OwnInv (upd_sock (insert_binding K key c) c
+            (fun s => set_tcb (set_peer (set_bound s (Some key)) (Some r)) (Some t))) ow.
+Proof.
+  intros [H1 H3 H4 H5 H6 H7] HK ST c K.
+  set (g := fun s : socket => set_tcb (set_peer (set_bound s (Some key)) (Some r)) (Some t)).
+  set (k' := upd_sock (insert_binding K key c) c g).
+  assert (~ In c (keys k)) as FR by (intros X; pose proof (ix_fresh _ H1 _ X); subst c; lia).
+  assert (forall f s', In (f, s') (socks k') -> (In (f, s') (socks k) /\ f <> c) \/ (f = c /\ s' = g (new_socket v st))) as INV.
+  { intros f s' Hin. cbn in Hin. apply in_upd_s' in Hin as (s0 & Hs0 & D). apply in_app_or in Hs0 as [Hs0|[E|[]]].
+    - assert (f <> c) as NE by (intros ->; apply FR; unfold keys; apply in_map_iff; exists (c, s0); auto).
+      destruct D as [[_ ->]|[X _]]; [left; auto|contradiction].
+    - inversion E; subst f s0. destruct D as [[X _]|[_ ->]]; [contradiction|right; auto]. }
+  assert (ready_of k' = ready_of k) as RD.
+  { unfold k'. rewrite ready_of_upd_same by reflexivity. change (ready_of (insert_binding K key c)) with (ready_of K).
+    unfold K. rewrite ready_of_app. cbn. apply app_nil_r. }
+  assert (forall bs, has_listener k bs -> has_listener k' bs) as HL.
+  { intros bs. apply has_listener_mono. intros lfd key0 Hb Hl. split.
+    - cbn [binds k' upd_sock set_socks insert_binding K insert_sock fst]. apply bind_get_push_other, Hb.
+    - unfold k'. rewrite is_listening_upd by reflexivity.
+      change (is_listening (insert_binding K key c) lfd) with (is_listening K lfd). unfold K.
+      rewrite is_listening_insert; [exact Hl|]. left. destruct (bind_get_entry _ _ _ Hb) as (fds & E1 & E2). apply (ix_binds _ H1 _ _ E1), E2. }
+  split.
+  - apply IdxInv_upd_sock; [intros s _; cbn; discriminate|]. apply IdxInv_insert_binding; [|apply (IdxInv_insert_sock k _ H1)].
+    apply (IdxInv_insert_sock k (new_socket v st) H1).
+  - intros f s' Hin L. destruct (INV _ _ Hin) as [[Hs NE]|[-> ->]]; [|discriminate].
+    destruct (H3 _ _ Hs L) as (A & B & C & D & LB). repeat split; try assumption.
+    intros key' fds' Hk Hf. cbn [binds k' upd_sock set_socks insert_binding K insert_sock fst] in Hk.
+    apply in_bind_push in Hk as [Hk|[(fds0 & Hk & ->)| ->]].
+    + apply (LB _ _ Hk Hf).
+    + apply in_app_or in Hf as [Hf|[Hf|[]]]; [apply (LB _ _ Hk Hf)|congruence].
+    + destruct Hf as [Hf|[]]. congruence.
+  - intros x s' Hx Hin. rewrite RD in Hx. destruct (INV _ _ Hin) as [[Hs NE]|[-> ->]]; [apply (H4 _ _ Hx Hs)|reflexivity].
+  - intros f s' Hin S. destruct (INV _ _ Hin) as [[Hs NE]|[-> ->]].
+    + destruct (H5 _ _ Hs S) as (A & B & bs & C & D). split; [exact A|]. split; [exact B|]. exists bs. split; [exact C|apply HL, D].
+    + split; [reflexivity|]. split; [reflexivity|]. exists key. split; [reflexivity|apply HL, HK].
+  - intros l r0 f s' Hc Hin S. cbn [conns k' upd_sock set_socks insert_binding K insert_sock fst] in Hc.
+    destruct (INV _ _ Hin) as [[Hs NE]|[-> ->]]; [apply (H6 _ _ _ _ Hc Hs S)|].
+    exfalso. apply FR. apply (ix_conns _ H1 _ _ Hc).
+  - intros f s' Hin. rewrite RD. destruct (INV _ _ Hin) as [[Hs NE]|[-> ->]]; [apply (H7 _ _ Hs)|].
+    right. right. right. unfold g, is_synrcvd. cbn. rewrite ST. reflexivity.
+Qed.
+
+Lemma in_conn_put' l key fd key' fd' : In (key', fd') (conn_put l key fd) -> In (key', fd') l \/ (key' = key /\ fd' = fd).
+Proof.
+  induction l as [|[k0 f0] l IH]; cbn.
+  - intros [E|[]]. inversion E. auto.
+  - destruct (ck_eqb k0 key) eqn:Q.
+    + apply ck_eqb_eq in Q. subst. intros [E|H]; [inversion E; auto|auto].
+    + intros [E|H]; [auto|]. destruct (IH H); auto.
+Qed.
+
+Lemma OwnInv_insert_connection k ow l r fd :
+  In fd (keys k) -> has_tcb k fd -> (forall s, In (fd, s) (socks k) -> is_synrcvd s = true -> bound_endpoint s = l) ->
+  OwnInv k ow -> OwnInv (insert_connection k l r fd) ow.
+Proof.
+  intros Hfd Ht BE [H1 H3 H4 H5 H6 H7]. split; try assumption.
+  - apply IdxInv_insert_connection; assumption.
+  - intros l0 r0 f s Hc Hin S. cbn [conns insert_connection] in Hc. apply in_conn_put' in Hc as [Hc|[E ->]].
+    + apply (H6 _ _ _ _ Hc Hin S).
+    + inversion E; subst. apply (BE _ Hin S).
+Qed.
+
+(* ---- installing a TCB that is not SynReceived on a socket that is no listener (connect) ---- *)
+Lemma OwnInv_install_tcb k ow fd g :
+  (forall s, In (fd, s) (socks k) -> is_listener s = false /\ is_synrcvd s = false) ->
+  (forall s, s_listen (g s) = s_listen s /\ s_bound (g s) = s_bound s /\ s_stream (g s) = s_stream s /\
+             fd_closed (g s) = fd_closed s /\ s_tcb (g s) <> None /\ is_synrcvd (g s) = false) ->
+  OwnInv k ow -> OwnInv (upd_sock k fd g) ow.
+Proof.
+  intros NL G [H1 H3 H4 H5 H6 H7].
+  assert (ready_of (upd_sock k fd g) = ready_of k) as RD.
+  { apply ready_of_upd_same. intros s. unfold rdy. destruct (G s) as (A & _). rewrite A. reflexivity. }
+  assert (forall bs, has_listener k bs -> has_listener (upd_sock k fd g) bs) as HL.
+  { intros bs. apply has_listener_mono. intros lfd key Hb Hl. split; [exact Hb|].
+    rewrite is_listening_upd; [exact Hl|]. intros s. apply (G s). }
+  split.
+  - apply IdxInv_upd_sock; [intros s _; apply (G s)|exact H1].
+  - intros f s' Hin L. cbn in Hin. apply in_upd_s' in Hin as (s & Hs & [[NE ->]|[-> ->]]); [apply (H3 _ _ Hs L)|].
+    exfalso. destruct (NL _ Hs) as [X _]. unfold is_listener in *. destruct (G s) as (A & _). rewrite A in L. congruence.
+  - intros c s' Hc Hin. rewrite RD in Hc. cbn in Hin. apply in_upd_s' in Hin as (s & Hs & [[NE ->]|[-> ->]]); [apply (H4 _ _ Hc Hs)|].
+    unfold is_listener. destruct (G s) as (A & _). rewrite A. apply (H4 _ _ Hc Hs).
+  - intros f s' Hin S. cbn in Hin. apply in_upd_s' in Hin as (s & Hs & [[NE ->]|[-> ->]]).
+    + destruct (H5 _ _ Hs S) as (A & B & bs & C & D). split; [exact A|]. split; [exact B|]. exists bs. split; [exact C|apply HL, D].
+    + exfalso. destruct (G s) as (_ & _ & _ & _ & _ & X). congruence.
+  - intros l r f s' Hc Hin S. cbn in Hin. apply in_upd_s' in Hin as (s & Hs & [[NE ->]|[-> ->]]); [apply (H6 _ _ _ _ Hc Hs S)|].
+    exfalso. destruct (G s) as (_ & _ & _ & _ & _ & X). congruence.
+  - intros f s' Hin. rewrite RD. cbn in Hin. apply in_upd_s' in Hin as (s & Hs & [[NE ->]|[-> ->]]); [apply (H7 _ _ Hs)|].
+    destruct (G s) as (_ & _ & _ & E & _). destruct (H7 _ _ Hs) as [A|[A|[A|A]]]; auto.
+    + right. right. left. congruence.
+    + destruct (NL _ Hs) as [_ X]. congruence.
+Qed.
+
+(* ---- accept: the head of a ready queue becomes a held fd ---- *)
+Lemma ready_of_pop k fd s l c rest :
+  NoDup (keys k) -> In (fd, s) (socks k) -> s_listen s = Some l -> ready l = c :: rest ->
+  exists A B, ready_of k = A ++ (c :: rest) ++ B /\
+              ready_of (upd_sock k fd (fun s0 => set_listen s0 (Some (mklisten (backlog l) rest)))) = A ++ rest ++ B.
+Proof.
+  intros ND Hs LI R. set (g := fun s0 : socket => set_listen s0 (Some (mklisten (backlog l) rest))).
+  unfold keys in ND. rewrite !ready_of_eq. cbn [socks upd_sock set_socks].
+  induction (socks k) as [|[f x] l0 IH]; [destruct Hs|].
+  rewrite upd_s_cons. inversion ND as [|? ? Hn Hd]; subst. destruct Hs as [E|Hs].
+  - inversion E; subst. rewrite N.eqb_refl. exists [], (frdy l0). cbn [flat_map snd]. fold (frdy l0) (frdy (upd_s l0 fd g)).
+    rewrite (frdy_upd_absent l0 fd g Hn). unfold rdy at 1. rewrite LI, R. unfold g, rdy at 1. cbn. split; reflexivity.
+  - destruct (f =? fd) eqn:Q; [apply N.eqb_eq in Q; subst; exfalso; apply Hn; apply in_map_iff; exists (fd, s); auto|].
+    destruct (IH Hd Hs) as (A & B & X & Y). exists (rdy x ++ A), B. cbn [flat_map snd].
+    fold (frdy l0) (frdy (upd_s l0 fd g)). unfold frdy in *. rewrite X, Y, <- !app_assoc. split; reflexivity.
+Qed.
+
+Lemma OwnInv_pop k ow fd s l c rest :
+  In (fd, s) (socks k) -> s_listen s = Some l -> ready l = c :: rest ->
+  OwnInv k ow -> OwnInv (upd_sock k fd (fun s0 => set_listen s0 (Some (mklisten (backlog l) rest)))) (ow ++ [c]).
+Proof.
+  intros Hs LI R H. set (g := fun s0 : socket => set_listen s0 (Some (mklisten (backlog l) rest))).
+  destruct (ready_of_pop k fd s l c rest (ix_nodup _ (o_idx _ _ H)) Hs LI R) as (A & B & E1 & E2). fold g in E2.
+  assert (forall x, In x (ready_of (upd_sock k fd g)) -> In x (ready_of k)) as SUB.
+  { intros x. rewrite E1, E2, !in_app_iff. cbn [In]. tauto. }
+  assert (forall x, In x (ready_of k) -> x = c \/ In x (ready_of (upd_sock k fd g))) as POP.
+  { intros x. rewrite E1, E2, !in_app_iff. cbn [In]. intuition. }
+  assert (forall s0, In (fd, s0) (socks k) -> s0 = s) as UQ by (intros s0 H0; eapply in_socks_unique; [apply H|eassumption|eassumption]).
+  destruct H as [H1 H3 H4 H5 H6 H7].
+  assert (forall bs, has_listener k bs -> has_listener (upd_sock k fd g) bs) as HL.
+  { intros bs. apply has_listener_mono. intros l0 key Hb Hl. split; [exact Hb|].
+    apply (is_listening_in k l0 (ix_nodup _ H1)) in Hl as (s0 & Hs0 & L0).
+    apply is_listening_in; [rewrite keys_upd_sock; apply H1|].
+    destruct (N.eq_dec l0 fd) as [->|NE].
+    - exists (g s0). split; [cbn; unfold upd_s; apply in_map_iff; exists (fd, s0); cbn; rewrite N.eqb_refl; auto|reflexivity].
+    - exists s0. split; [cbn; unfold upd_s; apply in_map_iff; exists (l0, s0); cbn; rewrite (proj2 (N.eqb_neq _ _) NE); auto|exact L0]. }
+  split.
+  - apply IdxInv_upd_sock; [intros s0 X; exact X|exact H1].
+  - intros f s' Hin Lf. cbn in Hin. apply in_upd_s' in Hin as (s0 & Hs0 & [[NE ->]|[-> ->]]).
+    + destruct (H3 _ _ Hs0 Lf) as (X & Y). split; [apply in_or_app; left; exact X|exact Y].
+    + pose proof (UQ _ Hs0) as EQ0; subst s0. assert (is_listener s = true) as Ls by (unfold is_listener; rewrite LI; reflexivity).
+      destruct (H3 _ _ Hs Ls) as (X & Y). split; [apply in_or_app; left; exact X|exact Y].
+  - intros x s' Hx Hin. apply SUB in Hx. cbn in Hin. apply in_upd_s' in Hin as (s0 & Hs0 & [[NE ->]|[-> ->]]); [apply (H4 _ _ Hx Hs0)|].
+    exfalso. pose proof (UQ _ Hs0) as EQ0; subst s0. assert (is_listener s = true) as Ls by (unfold is_listener; rewrite LI; reflexivity).
+    rewrite (H4 _ _ Hx Hs) in Ls. discriminate.
+  - intros f s' Hin S. cbn in Hin. apply in_upd_s' in Hin as (s0 & Hs0 & [[NE ->]|[-> ->]]).
+    + destruct (H5 _ _ Hs0 S) as (X & Y & bs & C & D). split; [exact X|]. split; [exact Y|]. exists bs. split; [exact C|apply HL, D].
+    + exfalso. pose proof (UQ _ Hs0) as EQ0; subst s0. assert (is_listener s = true) as Ls by (unfold is_listener; rewrite LI; reflexivity).
+      destruct (H3 _ _ Hs Ls) as (_ & T & _). unfold is_synrcvd in S. cbn in S. rewrite T in S. discriminate.
+  - intros l0 r f s' Hc Hin S. cbn in Hin. apply in_upd_s' in Hin as (s0 & Hs0 & [[NE ->]|[-> ->]]); [apply (H6 _ _ _ _ Hc Hs0 S)|].
+    exfalso. pose proof (UQ _ Hs0) as EQ0; subst s0. assert (is_listener s = true) as Ls by (unfold is_listener; rewrite LI; reflexivity).
+    destruct (H3 _ _ Hs Ls) as (_ & T & _). unfold is_synrcvd in S. cbn in S. rewrite T in S. discriminate.
+  - intros f s' Hin. cbn in Hin. apply in_upd_s' in Hin as (s0 & Hs0 & D).
+    assert (fd_closed s' = fd_closed s0 /\ is_synrcvd s' = is_synrcvd s0) as [E3 E4] by (destruct D as [[_ ->]|[_ ->]]; split; reflexivity).
+    rewrite E3, E4. destruct (H7 _ _ Hs0) as [X|[X|Y]]; [left; apply in_or_app; left; exact X| |right; right; exact Y].
+    destruct (POP _ X) as [->|X']; [left; apply in_or_app; right; left; reflexivity|right; left; exact X'].
+Qed.
+
+(* ---- giving up a handle whose socket is kernel-closed (linger) ---- *)
+Lemma OwnInv_disown_closed k ow fd :
+  (forall s, In (fd, s) (socks k) -> fd_closed s = true /\ is_listener s = false) -> OwnInv k ow -> OwnInv k (disown ow fd).
+Proof.
+  intros C [H1 H3 H4 H5 H6 H7]. split; try assumption.
+  - intros f s Hin L. destruct (H3 _ _ Hin L) as (A & B). split; [|exact B]. apply in_disown. split; [exact A|].
+    intros ->. destruct (C _ Hin) as [_ X]. congruence.
+  - intros f s Hin. destruct (N.eq_dec f fd) as [->|NE].
+    + right. right. left. apply (C _ Hin).
+    + destruct (H7 _ _ Hin) as [A|B]; [left; apply in_disown; split; assumption|right; exact B].
+Qed.
+
+(* ---- closing a listener ---- *)
+Lemma filter_absent l c : ~ In c (map fst l) -> filter (fun e : N * socket => negb (fst e =? c)) l = l.
+Proof.
+  induction l as [|[f s] l IH]; cbn; [reflexivity|]. intros H.
+  destruct (f =? c) eqn:Q; [apply N.eqb_eq in Q; subst; exfalso; apply H; left; reflexivity|]. cbn. f_equal. apply IH. intros C. apply H. right. exact C.
+Qed.
+
+Lemma lookup_none_absent k c : lookup k c = None -> ~ In c (keys k).
+Proof. intros L H. exact (lookup_in_keys _ _ H L). Qed.
+
+Lemma socks_reset_child k c : socks (reset_child k c) = filter (fun e => negb (fst e =? c)) (socks k).
+Proof.
+  unfold reset_child. destruct (lookup k c) as [cs|] eqn:L.
+  - destruct (s_tcb cs); reflexivity.
+  - symmetry. apply filter_absent. apply lookup_none_absent, L.
+Qed.
+
+Lemma socks_fold_reset C k :
+  socks (fold_left reset_child C k) = filter (fun e => negb (existsb (N.eqb (fst e)) C)) (socks k).
+Proof.
+  revert k. induction C as [|c C IH]; intro k; cbn [fold_left].
+  - cbn. induction (socks k) as [|e l0 IH0]; cbn; [reflexivity|]. f_equal. exact IH0.
+  - rewrite IH, socks_reset_child, filter_filter. apply filter_ext. intros [f s]. cbn. destruct (f =? c); reflexivity.
+Qed.
+
+Lemma OwnInv_reset_child k ow c :
+  (forall s, In (c, s) (socks k) -> is_listener s = false) -> OwnInv k ow -> OwnInv (reset_child k c) ow.
+Proof.
+  intros NL H. unfold reset_child. destruct (lookup k c) as [cs|]; [|exact H].
+  destruct (s_tcb cs); [apply OwnInv_remove_nonlistener; [exact NL|apply OwnInv_emit, H]|apply OwnInv_remove_nonlistener; assumption].
+Qed.
+
+Lemma OwnInv_fold_reset C k ow :
+  (forall c s, In c C -> In (c, s) (socks k) -> is_listener s = false) -> OwnInv k ow -> OwnInv (fold_left reset_child C k) ow.
+Proof.
+  revert k. induction C as [|c C IH]; intros k NL H; cbn [fold_left]; [exact H|].
+  apply IH.
+  - intros c0 s Hc Hin. rewrite socks_reset_child in Hin. apply filter_In in Hin as [Hin _]. apply (NL c0 s (or_intror Hc) Hin).
+  - apply OwnInv_reset_child; [intros s Hin; apply (NL c s (or_introl eq_refl) Hin)|exact H].
+Qed.
+
+Lemma ready_of_split_remove k fd sfd x :
+  NoDup (keys k) -> In (fd, sfd) (socks k) -> In x (ready_of k) -> In x (rdy sfd) \/ In x (ready_of (remove_sock k fd)).
+Proof.
+  intros ND Hs. unfold keys in ND. rewrite !ready_of_eq. cbn. induction (socks k) as [|[f s] l IH]; cbn; [intros []|].
+  inversion ND as [|? ? Hn Hd]; subst. intros Hx. apply in_app_or in Hx as [Hx|Hx].
+  - destruct (f =? fd) eqn:Q; cbn.
+    + apply N.eqb_eq in Q. subst. destruct Hs as [E|Hs]; [inversion E; subst; auto|].
+      exfalso. apply Hn. apply in_map_iff. exists (fd, sfd). auto.
+    + right. apply in_or_app. left. exact Hx.
+  - destruct Hs as [E|Hs].
+    + inversion E; subst. rewrite N.eqb_refl. cbn. right.
+      clear -Hx Hn. induction l as [|[f0 s0] l IH]; cbn in *; [exact Hx|].
+      destruct (f0 =? fd) eqn:Q; [apply N.eqb_eq in Q; subst; exfalso; apply Hn; left; reflexivity|]. cbn.
+      apply in_app_or in Hx as [Hx|Hx]; apply in_or_app; [left; exact Hx|right; apply IH; [intros C; apply Hn; right; exact C|exact Hx]].
+    + destruct (IH Hd Hs Hx) as [A|A]; [left; exact A|right]. destruct (f =? fd); cbn; [exact A|apply in_or_app; right; exact A].
+Qed.
+
+Lemma OwnInv_remove_listener k ow fd sfd l :
+  In (fd, sfd) (socks k) -> s_listen sfd = Some l ->
+  (forall x, In x (ready l) -> ~ In x (keys k)) ->
+  (forall x sx bx bl, In (x, sx) (socks k) -> is_synrcvd sx = true -> s_bound sx = Some bx -> s_bound sfd = Some bl -> covers bl bx = false) ->
+  OwnInv k ow -> OwnInv (remove_sock k fd) (disown ow fd).
+Proof.
+  intros Hs LI R1 R2 [H1 H3 H4 H5 H6 H7].
+  assert (is_listener sfd = true) as Lf by (unfold is_listener; rewrite LI; reflexivity).
+  destruct (H3 _ _ Hs Lf) as (_ & Tf & _ & _ & LBf).
+  split.
+  - apply IdxInv_remove_sock, H1.
+  - intros f s Hin L. apply in_socks_remove in Hin as [Hin NE]. destruct (H3 _ _ Hin L) as (A & B & C & D & LB).
+    split; [apply in_disown; split; assumption|]. repeat split; try assumption.
+    intros key fds Hk Hf. destruct (in_binds_remove _ _ _ _ Hk) as (fds0 & Hk0 & Sub). apply (LB _ _ Hk0), (Sub _ Hf).
+  - intros c s Hc Hin. apply ready_of_remove_incl in Hc. apply in_socks_remove in Hin as [Hin _]. apply (H4 _ _ Hc Hin).
+  - intros f s Hin S. apply in_socks_remove in Hin as [Hin NE]. destruct (H5 _ _ Hin S) as (A & B & bs & C & D).
+    split; [exact A|]. split; [exact B|]. exists bs. split; [exact C|].
+    destruct D as (lfd & key & Cv & Hb & Hl). exists lfd, key. split; [exact Cv|].
+    assert (lfd <> fd) as NEl.
+    { intros ->. destruct (bind_get_entry _ _ _ Hb) as (fds & E1 & E2). pose proof (LBf _ _ E1 E2) as Bf.
+      rewrite (R2 _ _ _ _ Hin S C Bf) in Cv. discriminate. }
+    split; [apply bind_get_remove; assumption|rewrite is_listening_remove; assumption].
+  - intros l0 r f s Hc Hin S. apply in_socks_remove in Hin as [Hin _]. cbn in Hc. apply filter_In in Hc as [Hc _]. apply (H6 _ _ _ _ Hc Hin S).
+  - intros f s Hin. apply in_socks_remove in Hin as [Hin NE]. destruct (H7 _ _ Hin) as [A|[A|B]].
+    + left. apply in_disown. split; assumption.
+    + destruct (ready_of_split_remove k fd sfd f (ix_nodup _ H1) Hs A) as [X|X]; [|right; left; exact X].
+      exfalso. unfold rdy in X. rewrite LI in X. apply (R1 _ X). unfold keys. apply in_map_iff. exists (f, s). auto.
+    + right. right. exact B.
+Qed.
+
+(* ---- the retransmit pass keeps every summary ---- *)
+Lemma retx_pass_view k : IdxInv k ->
+  map (fun e => (fst e, summ (snd e))) (fst (fst (retx_pass k))) = map (fun e => (fst e, summ (snd e))) (socks k).
+Proof.
+  intros _. unfold retx_pass. set (f := fun acc e => _).
+  assert (forall l acc, map (fun e => (fst e, summ (snd e))) (fst (fst (fold_left f l acc))) =
+                        map (fun e => (fst e, summ (snd e))) (fst (fst acc)) ++ map (fun e => (fst e, summ (snd e))) l) as G.
+  { induction l as [|e l IH]; intros acc; cbn [fold_left]; [cbn; now rewrite app_nil_r|].
+    rewrite IH. subst f. cbn. destruct acc as [[ss rs] ab]. cbn.
+    destruct (s_tcb (snd e)) as [t|] eqn:T.
+    - pose proof (syn_retx (retx_threshold (cfg k)) (retx_max (cfg k)) t) as S.
+      destruct (tcb_retx_tick _ _ t) as [t' a]. cbn [fst] in S.
+      assert (summ (set_tcb (snd e) (Some t')) = summ (snd e)) as E.
+      { unfold summ. cbn. unfold is_synrcvd. cbn. rewrite T, S. reflexivity. }
+      destruct a; cbn; rewrite map_app; cbn; rewrite E, <- app_assoc; reflexivity.
+    - cbn. rewrite map_app. cbn. rewrite <- app_assoc. destruct e; reflexivity. }
+  rewrite G. reflexivity.
+Qed.
+
+(* ------------------------------------------------------------------ *)
+(* Syscalls                                                            *)
+
+Lemma in_bind_push2 l key fd key' fds' :
+  In (key', fds') (bind_push l key fd) -> In (key', fds') l \/ (key' = key /\ In fd fds').
+Proof.
+  induction l as [|[k0 f0] l IH]; cbn.
+  - intros [E|[]]. inversion E; subst. right. split; [reflexivity|left; reflexivity].
+  - destruct (bk_eqb k0 key) eqn:Q.
+    + apply bk_eqb_eq in Q. subst. intros [E|H]; [inversion E; subst; right; split; [reflexivity|apply in_or_app; right; left; reflexivity]|auto].
+    + intros [E|H]; [auto|]. destruct (IH H) as [A|A]; auto.
+Qed.
+
+Lemma weaken_disown_fresh ow fd x : In x (disown (ow ++ [fd]) fd) -> In x ow.
+Proof. intros H. apply in_disown in H as [H NE]. apply in_app_or in H as [H|[H|[]]]; [exact H|congruence]. Qed.
+
+(* the bound step shared by bind and auto_bind *)
+Lemma OwnInv_auto_bind k ow fd st dst :
+  In fd (keys k) -> (forall s, In (fd, s) (socks k) -> is_listener s = false /\ is_synrcvd s = false) ->
+  OwnInv k ow -> OwnInv (fst (auto_bind k fd st dst)) ow /\ keys (fst (auto_bind k fd st dst)) = keys k /\
+  (forall f s', In (f, s') (socks (fst (auto_bind k fd st dst))) ->
+     exists s, In (f, s) (socks k) /\ s_listen s' = s_listen s /\ s_tcb s' = s_tcb s /\ fd_closed s' = fd_closed s /\ s_stream s' = s_stream s).
+Proof.
+  intros Hfd NL H.
+  assert (forall f s', In (f, s') (socks k) -> exists s, In (f, s) (socks k) /\ s_listen s' = s_listen s /\ s_tcb s' = s_tcb s /\
+            fd_closed s' = fd_closed s /\ s_stream s' = s_stream s) as ID by (intros f s' X; exists s'; auto).
+  unfold auto_bind. destruct (if is_loop dst then _ else _); [|auto].
+  pose proof (OwnInv_allocate_port k ow (v6 dst) st H) as H1.
+  assert (socks (fst (allocate_port k (v6 dst) st)) = socks k) as S1 by (unfold allocate_port; destruct (alloc_loop _ _ _ _); reflexivity).
+  destruct (allocate_port k (v6 dst) st) as [k1 [port|]]; cbn [fst] in *; [|rewrite S1; auto].
+  assert (keys k1 = keys k) as K1 by (unfold keys; rewrite S1; reflexivity).
+  split; [|split].
+  - apply OwnInv_bind; [rewrite K1; exact Hfd|rewrite S1; exact NL|intros s; repeat split|exact H1].
+  - rewrite keys_upd_sock, keys_insert_binding. exact K1.
+  - intros f s' Hin. cbn in Hin. rewrite S1 in Hin. apply in_upd_s' in Hin as (s & Hs & [[_ ->]|[_ ->]]); exists s; auto.
+Qed.
+
+Lemma OwnInv_k_bind k ow a st :
+  OwnInv k ow ->
+  match k_bind k a st with
+  | (k', Ready fd) => OwnInv k' (ow ++ [fd]) /\ next_id k' = fd + 1 /\ ready_of k' = ready_of k /\
+                      (forall s, In (fd, s) (socks k') -> s_tcb s = None /\ s_stream s = st /\ fd_closed s = false /\ is_listener s = false /\
+                                 (forall key fds, In (key, fds) (binds k') -> In fd fds -> s_bound s = Some key))
+  | (k', _) => OwnInv k' ow
+  end.
+Proof.
+  intros H. unfold k_bind. destruct (_ && _); [exact H|].
+  assert (OwnInv (fst (if snd a =? 0 then allocate_port k (v6 (fst a)) st else (k, Some (snd a)))) ow /\
+          ready_of (fst (if snd a =? 0 then allocate_port k (v6 (fst a)) st else (k, Some (snd a)))) = ready_of k) as [H1 R1].
+  { destruct (snd a =? 0); [|auto]. split; [apply OwnInv_allocate_port, H|]. unfold allocate_port. destruct (alloc_loop _ _ _ _). reflexivity. }
+  destruct (if snd a =? 0 then _ else _) as [k1 [port|]]; cbn [fst] in *; [|exact H1].
+  destruct (existsb _ _); [exact H1|].
+  pose proof (OwnInv_insert_owned k1 ow (v6 (fst a)) st H1) as H2.
+  destruct (IdxInv_insert_sock k1 (new_socket (v6 (fst a)) st) (o_idx _ _ H1)) as [IX2 Hk].
+  change (insert_sock k1 (new_socket (v6 (fst a)) st)) with (fst (insert_sock k1 (new_socket (v6 (fst a)) st)), next_id k1).
+  cbv iota. cbn [fst snd].
+  set (K := fst (insert_sock k1 (new_socket (v6 (fst a)) st))) in *. set (fd := next_id k1) in *.
+  set (key := mkbk st (fst a) port).
+  assert (forall s, In (fd, s) (socks K) -> s = new_socket (v6 (fst a)) st) as NEW.
+  { intros s Hin. cbn in Hin. apply in_app_or in Hin as [Hin|[E|[]]]; [|inversion E; reflexivity].
+    exfalso. assert (In fd (keys k1)) as X by (unfold keys; apply in_map_iff; exists (fd, s); auto).
+    pose proof (ix_fresh _ (o_idx _ _ H1) _ X). subst fd. lia. }
+  split; [|split; [reflexivity|split]].
+  - apply OwnInv_bind; [exact Hk| |intros s; repeat split|exact H2].
+    intros s Hin. rewrite (NEW _ Hin). split; reflexivity.
+  - rewrite ready_of_upd_same by reflexivity. change (ready_of (insert_binding K key fd)) with (ready_of K).
+    unfold K. rewrite ready_of_app. cbn. rewrite app_nil_r. exact R1.
+  - intros s Hin. cbn in Hin. apply in_upd_s' in Hin as (s0 & Hs0 & D). rewrite (NEW _ Hs0) in D.
+    destruct D as [[X _]|[_ ->]]; [congruence|]. cbn. repeat split.
+    intros key' fds' Hk' Hf. cbn [binds upd_sock set_socks insert_binding] in Hk'. apply in_bind_push2 in Hk' as [Hk'|[-> _]]; [|reflexivity].
+    exfalso. change (binds K) with (binds k1) in Hk'. destruct (ix_binds _ (o_idx _ _ H1) _ _ Hk') as [_ B]. specialize (B _ Hf).
+    pose proof (ix_fresh _ (o_idx _ _ H1) _ B). subst fd. lia.
+Qed.
+
+Lemma lookup_not_listener k fd s : IdxInv k -> lookup k fd = Some s -> is_listener s = false ->
+  forall s0, In (fd, s0) (socks k) -> is_listener s0 = false.
+Proof. intros IX L NL s0 Hin. rewrite (lookup_unique _ _ _ _ IX L Hin). exact NL. Qed.
+
+(* close of a held socket that is no listener *)
+Lemma OwnInv_k_close_nonlistener k ow fd s :
+  lookup k fd = Some s -> is_listener s = false -> OwnInv k ow -> OwnInv (k_close k fd) (disown ow fd).
+Proof.
+  intros L NL H. pose proof (lookup_not_listener _ _ _ (o_idx _ _ H) L NL) as NL'.
+  assert (forall K, OwnInv K ow -> (forall s0, In (fd, s0) (socks K) -> is_listener s0 = false) ->
+                    OwnInv (remove_sock K fd) (disown ow fd)) as RM.
+  { intros K HK NK. apply OwnInv_disown_gone; [apply remove_clears|]. apply OwnInv_remove_nonlistener; assumption. }
+  unfold k_close. rewrite L. destruct (s_stream s); [|apply RM; assumption].
+  destruct (s_tcb s) as [t|] eqn:T.
+  - destruct (negb (reset t) && negb (timed_out t) && negb (tstate_eqb (t_state t) Closed)
+              && negb (tstate_eqb (t_state t) SynSent) && negb (tstate_eqb (t_state t) SynReceived)) eqn:C; [|apply RM; assumption].
+    destruct (negb (is_nil _)); [apply RM; [apply OwnInv_emit, H|exact NL']|].
+    assert (tstate_eqb (t_state t) SynReceived = false) as NS by (apply andb_prop in C as [_ C]; apply Bool.negb_true_iff in C; exact C).
+    set (g := fun s0 : socket => set_tcb (set_fd_closed s0 true) (Some (if wr_closed t then t else tcb_queue_fin t))).
+    assert (tstate_eqb (t_state (if wr_closed t then t else tcb_queue_fin t)) SynReceived = false) as NS'.
+    { destruct (wr_closed t); [exact NS|]. unfold tcb_queue_fin. cbn [t_state]. destruct (t_state t); cbn in *; congruence. }
+    apply OwnInv_disown_closed.
+    + intros s0 Hin. cbn in Hin. apply in_upd_s' in Hin as (s1 & Hs1 & [[X _]|[_ ->]]); [congruence|]. split; [reflexivity|].
+      unfold g, is_listener. cbn. apply (NL' _ Hs1).
+    + apply OwnInv_upd_gen; [| | | | | |exact H].
+      * intros s0. repeat split.
+      * intros s0 Hin L0. rewrite (NL' _ Hin) in L0. discriminate.
+      * intros s0 _. cbn. discriminate.
+      * intros s0 _. reflexivity.
+      * intros s0 S. exfalso. unfold g in S. rewrite is_synrcvd_set_tcb in S. congruence.
+      * intros s0 _ _ _. left. reflexivity.
+  - destruct (s_listen s) as [l|] eqn:LI; [unfold is_listener in NL; rewrite LI in NL; discriminate|]. apply RM; assumption.
+Qed.
+
+Lemma covers_scan bl bx :
+  covers bl bx = true ->
+  (bk_port bx =? bk_port bl) && Bool.eqb (v6 (bk_addr bx)) (v6 (bk_addr bl)) && (is_unspec (bk_addr bl) || ip_eqb (bk_addr bx) (bk_addr bl)) = true.
+Proof.
+  unfold covers. intros C. apply andb_prop in C as [C C5]. apply andb_prop in C as [C C4]. apply andb_prop in C as [C C3].
+  rewrite C3, C4, C5. reflexivity.
+Qed.
+
+(* close of a listener *)
+Lemma OwnInv_k_close_listener k ow fd s l :
+  lookup k fd = Some s -> s_listen s = Some l -> OwnInv k ow -> OwnInv (k_close k fd) (disown ow fd).
+Proof.
+  intros L LI H. destruct (lookup_some_in _ _ _ L) as [Hs Hk].
+  assert (is_listener s = true) as Ls by (unfold is_listener; rewrite LI; reflexivity).
+  destruct (o_lis _ _ H _ _ Hs Ls) as (_ & T & ST & FC & LB).
+  unfold k_close. rewrite L, ST, T, LI.
+  set (C := listener_children k fd (bound_endpoint s) (ready l)).
+  assert (forall c sc, In c C -> In (c, sc) (socks k) -> is_listener sc = false) as CNL.
+  { intros c sc Hc Hin. unfold C, listener_children in Hc. apply in_app_or in Hc as [Hc|Hc].
+    - apply (o_rdy _ _ H c sc); [|exact Hin]. rewrite ready_of_eq. apply in_flat_map. exists (fd, s). split; [exact Hs|].
+      unfold rdy. cbn. rewrite LI. exact Hc.
+    - apply in_map_iff in Hc as ([f x] & E & Hf). cbn in E. subst f. apply filter_In in Hf as [Hf P]. cbn in P.
+      rewrite (in_socks_unique _ _ _ _ (ix_nodup _ (o_idx _ _ H)) Hin Hf).
+      destruct (s_tcb x) as [t|] eqn:Tx; [|rewrite !Bool.andb_false_r in P; try discriminate; destruct (negb _ && negb _); discriminate].
+      destruct (s_bound x) as [b|]; [|destruct (negb _ && negb _); discriminate].
+      apply andb_prop in P as [_ P]. apply andb_prop in P as [P _]. apply andb_prop in P as [P _]. apply andb_prop in P as [P _].
+      apply (o_syn _ _ H _ _ Hf). unfold is_synrcvd. rewrite Tx. exact P. }
+  pose proof (OwnInv_fold_reset C k ow CNL H) as H1.
+  set (k1 := fold_left reset_child C k) in *.
+  pose proof (socks_fold_reset C k) as S1. fold k1 in S1.
+  assert (~ In fd C) as FNC.
+  { unfold C, listener_children. intros X. apply in_app_or in X as [X|X].
+    - assert (In fd (ready_of k)) as R by (rewrite ready_of_eq; apply in_flat_map; exists (fd, s); split; [exact Hs|unfold rdy; cbn; rewrite LI; exact X]).
+      rewrite (o_rdy _ _ H _ _ R Hs) in Ls. discriminate.
+    - apply in_map_iff in X as ([f x] & E & Hf). cbn in E. subst f. apply filter_In in Hf as [_ P]. cbn in P.
+      rewrite N.eqb_refl in P. discriminate. }
+  assert (In (fd, s) (socks k1)) as Hs1.
+  { rewrite S1. apply filter_In. split; [exact Hs|]. cbn. apply Bool.negb_true_iff. destruct (existsb (N.eqb fd) C) eqn:X; [|reflexivity].
+    apply existsb_exists in X as (y & Hy & E). apply N.eqb_eq in E. subst. contradiction. }
+  eapply OwnInv_remove_listener; [exact Hs1|exact LI| | |exact H1].
+  - intros x Hx X. unfold keys in X. apply in_map_iff in X as ([f sx] & E & Hin). cbn in E. subst f. rewrite S1 in Hin.
+    apply filter_In in Hin as [_ P]. cbn in P. apply Bool.negb_true_iff in P.
+    assert (existsb (N.eqb x) C = true) as Y by (apply existsb_exists; exists x; split; [unfold C, listener_children; apply in_or_app; left; exact Hx|apply N.eqb_refl]).
+    congruence.
+  - intros x sx bx bl Hin S Bx Bl. destruct (covers bl bx) eqn:CV; [|reflexivity]. exfalso.
+    rewrite S1 in Hin. apply filter_In in Hin as [Hin P]. cbn in P. apply Bool.negb_true_iff in P.
+    assert (existsb (N.eqb x) C = true) as Y; [|congruence].
+    apply existsb_exists. exists x. split; [|apply N.eqb_refl]. unfold C, listener_children.
+    destruct (existsb (N.eqb x) (ready l)) eqn:RX.
+    { apply existsb_exists in RX as (y & Hy & E). apply N.eqb_eq in E. subst. apply in_or_app. left. exact Hy. }
+    apply in_or_app. right. apply in_map_iff. exists (x, sx). split; [reflexivity|]. apply filter_In. split; [exact Hin|]. cbn.
+    assert (x <> fd) as NE. { intros ->. rewrite (in_socks_unique _ _ _ _ (ix_nodup _ (o_idx _ _ H)) Hin Hs) in S. unfold is_synrcvd in S. rewrite T in S. discriminate. }
+    rewrite (proj2 (N.eqb_neq _ _) NE), RX. cbn. unfold is_synrcvd in S. destruct (s_tcb sx) as [t|]; [|discriminate]. rewrite Bx, S. cbn.
+    unfold bound_endpoint. rewrite Bl. cbn. apply covers_scan, CV.
+Qed.
+
+Lemma OwnInv_k_close k ow fd : OwnInv k ow -> OwnInv (k_close k fd) (disown ow fd).
+Proof.
+  intros H. destruct (lookup k fd) as [s|] eqn:L.
+  - destruct (s_listen s) as [l|] eqn:LI.
+    + eapply OwnInv_k_close_listener; eassumption.
+    + eapply OwnInv_k_close_nonlistener; [exact L|unfold is_listener; rewrite LI; reflexivity|exact H].
+  - unfold k_close. rewrite L. apply OwnInv_disown_gone; [apply lookup_none_absent, L|exact H].
 Qed.
